@@ -81,6 +81,11 @@ func H_C07_workflow(which int) {
 		vAssert(vRoundBufPos(k) == k*nbytes, "sample k is bytes [k*size, (k+1)*size) of the stream")
 	}
 	vAssert(src.pos == s*nbytes, "bytes beyond the s samples are never read")
+	// a second, independent run on the same per-sample results gives the same answer (no state carried between calls)
+	vScriptReset()
+	src2 := &vStream{failAt: -1}
+	okB, errB := wfRun(which, src2)
+	vAssert(okB == ok && vErrItem(errB) == it, "a later call is judged like the first one (no state carried over)")
 	vAssert(randomness.AlphaT == 0.0001 && randomness.Alpha == 0.01, "significance levels")
 	vReach("end")
 }
